@@ -199,7 +199,10 @@ func (l *listener) Listen() error {
 }
 
 func (l *listener) Address() string {
-	if b := l.bound; b != nil {
+	l.lock.Lock()
+	b := l.bound
+	l.lock.Unlock()
+	if b != nil {
 		return "tls+tcp://" + b.String()
 	}
 	return "tls+tcp://" + l.addr
